@@ -14,7 +14,8 @@ RULE = ("grid cases: files of 56..400 bytes around segment boundaries, 1<=k<=N<=
         "through a recording consumer, once or twice on the same node; files uploaded with a large max segment size (blocks of 262145..600000 "
         "bytes, k = 1..3) with one byte flipped at positions over the whole block incl. every 256 KiB boundary and the last bytes; one, several or all shares cut to 0..37 bytes of share data (shorter than "
         "the offset table) where the read must finish or fail; multi-segment files damaged only in a later segment of most shares, read whole and "
-        "again on the same node (must finish or fail); non-trivial = the scenario damaged at least one share that the "
+        "again on the same node (must finish or fail); all shares in use with the UEB length word set to 0 / too large or cut inside "
+        "the UEB body (must finish or fail); non-trivial = the scenario damaged at least one share that the "
         "download touched; distinct = distinct (file parameters, scenario, damage)")
 META = {
     "title": "Immutable downloads never return wrong bytes",
@@ -1094,12 +1095,77 @@ def later_segments(ctx):
         later_segment_case(ctx, i)
 
 
+# ---- the end of the share: UEB length word and UEB body -----------------------------------------------------------------
+def ueb_tail_case(ctx, i):
+    """Every share in use (all, or all but fewer than k) damaged at its very end: the UEB length word set to 0, a little
+    or a lot too large, or the share cut inside the UEB body / inside the length word.  The read must finish -- exact
+    bytes or an error; `hung` or a timeout is a violation."""
+    from core import grid as G
+    r = ctx.rng("uebtail", i)
+    k = r.choice([1, 2, 3])
+    n = r.choice([k, k + 1, k + 2, 2 * k + 1])
+    mss = r.choice([24, 64, 128])
+    size = r.choice([56, 100, 200])
+    data = bytes(r.getrandbits(8) for _ in range(size))
+    nservers = r.choice([n, n, n + 1, max(1, n // 2)])
+    seed = r.getrandbits(30)
+    base = {"i": i, "uebtail": True, "k": k, "n": n, "size": size, "max_segment_size": mss, "servers": nservers, "seed": seed}
+    outcomes = []
+    with G.Grid(num_servers=nservers, k=k, n=n, happy=1, max_segment_size=mss, seed=seed, timeout=180) as g:
+        cap = g.run(g.upload(data, convergence=b"c02u"))
+        shares = g.find_shares(cap)
+        raws = {(s.server, s.shnum): g.read_share(s) for s in shares}
+        kinds = ["len=0", "len+1", "len+100", "len=huge", "len-1", "cut:10-into-body", "cut:last-50", "cut:last-1", "cut:inside-length-word", "cut:after-length-word",
+                 "cut:before-length-word"]
+        r.shuffle(kinds)
+        for kind in kinds[:ctx.n(6, 11)]:
+            spare = r.choice([0, 0, 0, k - 1, k])             # shares left untouched
+            hit = r.sample(shares, max(0, len(shares) - spare))
+            mixed = r.random() < 0.25
+            for s in hit:
+                head, pay, leases = split_container(raws[(s.server, s.shnum)])
+                ver, fs, offs = parse_header(pay)
+                fmt = ">L" if fs == 4 else ">Q"
+                o = offs["uri_extension"]
+                (ulen,) = struct.unpack(fmt, pay[o:o + fs])
+                kd = r.choice(kinds) if mixed else kind
+                if kd.startswith("len"):
+                    new = {"len=0": 0, "len+1": ulen + 1, "len+100": ulen + 100, "len=huge": 2 ** (8 * fs) - 1, "len-1": ulen - 1}[kd]
+                    newp = pay[:o] + struct.pack(fmt, new) + pay[o + fs:]
+                else:
+                    cut = {"cut:10-into-body": o + fs + 10, "cut:last-50": len(pay) - 50, "cut:last-1": len(pay) - 1, "cut:inside-length-word": o + fs - 1,
+                           "cut:after-length-word": o + fs, "cut:before-length-word": o}[kd]
+                    newp = pay[:cut]
+                g.write_share(s, join_container(head, newp, leases))
+            node = fresh_node(g, cap)
+            for j, (off, ln) in enumerate([(0, None)] + ([random_ranges(r, size, mss)] if r.random() < 0.4 else [])):
+                status, err, chunks = read_through(g, node, off, ln, timeout=90)
+                case = dict(base, damage=kind, mixed=mixed, damaged_shares=sorted(s.shnum for s in hit), untouched=len(shares) - len(hit), read=[off, ln], read_number_on_node=j + 1)
+                judge(ctx, data, off, ln, status, err, chunks, case, "ueb-tail")
+                if status in ("hung", "timeout"):
+                    ctx.oracle_fail("read-never-finishes:damaged-ueb-length-or-cut-ueb",
+                                    "read(%d, %r) neither completed nor failed (%s): %s in %d of %d shares (k=%d)" % (off, ln, status, "mixed UEB damage" if mixed else kind, len(hit), len(shares), k),
+                                    case=case)
+                outcomes.append(err or status)
+                ctx.case((i, kind, mixed, tuple(sorted(s.shnum for s in hit)), off, ln), kind="ueb-tail:%s:%s" % (kind.split(":")[0].split("=")[0].split("+")[0].split("-")[0],
+                                                                                                       "ok" if status == "ok" else ("refused" if status == "error" else status)))
+            for s in hit:
+                g.write_share(s, raws[(s.server, s.shnum)])
+    return {"outcomes": outcomes}
+
+
+def ueb_tails(ctx):
+    for i in range(ctx.n(8, 80)):
+        ueb_tail_case(ctx, i)
+
+
 def run(ctx):
     classification(ctx)
     adversarial(ctx)
     large_blocks(ctx)
     short_truncations(ctx)
     later_segments(ctx)
+    ueb_tails(ctx)
 
 
 def replay(ctx, record):
@@ -1111,6 +1177,8 @@ def replay(ctx, record):
         return short_truncation_case(ctx, case["i"])
     if case.get("later"):
         return later_segment_case(ctx, case["i"])
+    if case.get("uebtail"):
+        return ueb_tail_case(ctx, case["i"])
     if "scenario" in case and "i" in case:
         return adversarial_case(ctx, case["i"])
     if "file" in case:
